@@ -101,6 +101,14 @@ def c02(ctx):
     rep.rule("C02.R7", "block structure: is_function_terminator is true exactly for an `if` statement that has an else branch (whatever that "
              "branch contains) and false for every other statement kind -- the table is computed by KIND over all statement kinds")
     noise_and_blocks(ctx)
+    rep.rule("C02.R8", "comments are noise: every token CommentSkippingLexer::next hands to the parser has been tested not to be a comment -- it is "
+             "the result of Iterator::find with a predicate that negates is_comment, or its return is confined to the false edge of "
+             "is_comment() on that very token (or to the end-of-input edge)")
+    comments_rule(ctx, "C02.R8")
+    rep.rule("C02.R9", "one notion of letter case in the front end and the interpreter (shared with C15.R4): a keyword or a capitalised name "
+             "must not be classified by an ASCII-only function")
+    from .c15 import case_rule
+    case_rule(ctx, "C02.R9")
     # ---- R1
     pairs, problems = tables.keyword_table(F)
     if pairs is None:
@@ -451,3 +459,76 @@ def noise_and_blocks(ctx):
     rep.ob("C02.R7", "table::depends-only-on-kind-and-else", ok, "" if ok else "the result also depends on %s: an if/else ends the function body whatever its branches contain" % sorted(extra), fn.loc(),
            how="conditions: statement kind, else branch present")
     rep.exhaustive["C02.R7 statement kinds x else-branch"] = True
+
+
+
+def comments_rule(ctx, rule):
+    F, rep = ctx.F, ctx.rep
+    from ..guards import _bool_edges, _dominated_by_edge
+    fn = None
+    for f in F.all_fns(tests=False):
+        if f.kind != "closure" and f.path.endswith("::next") and "CommentSkippingLexer" in f.path and "Iterator" in f.path:
+            fn = f
+    if fn is None:
+        rep.fail(rule, "anchor", "impl Iterator for CommentSkippingLexer: next not found")
+        return
+    rep.analysed(fn)
+    RET = {"copy": {"l": 0, "p": []}}
+    srcs = [(d, p) for d, p in origins(fn, RET)]
+    calls = sorted({d[1] for d, p in srcs if d[0] == "call"})
+    n = 0
+    for cb in calls:
+        t = fn.term(cb)
+        nm = t["callee"].get("name")
+        n += 1
+        if nm in ("find", "skip_while", "filter") and len(t["args"]) > 1:
+            # the predicate negates is_comment
+            ok, why = False, "the predicate of %s is not `!token.is_comment()`" % nm
+            l = op_local(t["args"][1])
+            cty = fn.local_ty(l).peel_refs() if l is not None else None
+            cf = F.fn(cty.d["closure"]) if cty is not None and cty.kind() == "closure" else None
+            if cf is not None:
+                ics = [bi for bi, ct in cf.calls() if ct["callee"].get("name") == "is_comment"]
+                neg = False
+                for bi, si, st in cf.assigns():
+                    if st["pl"]["l"] == 0 and st["rv"].get("un") == "not" and any(d[0] == "call" and d[1] in ics for d, _ in origins(cf, st["rv"]["a"])):
+                        neg = True
+                want_neg = nm in ("find", "filter")
+                direct = any(d[0] == "call" and d[1] in ics for d, _ in origins(cf, {"copy": {"l": 0, "p": []}}))
+                if ics and ((want_neg and neg) or (not want_neg and direct and not neg)):
+                    ok, why = True, ""
+            rep.ob(rule, "returned-token-not-a-comment::%s" % nm, ok, why, fn.loc(t["line"]), how="%s(|t| !t.is_comment())" % nm)
+        elif nm in ("next", "next_back"):
+            # explicit form: wherever this token is what is returned, is_comment() of it was false (or it is the end of input)
+            ics = [bi for bi, ct in fn.calls() if ct["callee"].get("name") == "is_comment" and ct["args"] and any(d[0] == "call" and d[1] == cb for d, _ in origins(fn, ct["args"][0]))]
+            assign_blocks = [bi for bi, si, st in fn.assigns() if st["pl"]["l"] == 0 and any(d[0] == "call" and d[1] == cb for o in ([st["rv"]["use"]] if "use" in st["rv"] else st["rv"].get("ops", [])) for d, _ in origins(fn, o))]
+            if t["dest"]["l"] == 0:
+                assign_blocks.append(cb)
+            # allowed ways from the call to a block that returns its token: the false edge of is_comment() on it, the None edge
+            allowed = set()
+            for ib in ics:
+                be = _bool_edges(fn, ib)
+                if be:
+                    allowed.add((be[0], be[1]))
+            for sb in range(len(fn.blocks)):
+                sw = tables.arms_complete(fn, sb)
+                if sw and sw[1].peel_refs().adt() == "std::option::Option" and "None" in sw[2] and sw[2].get("Some") != sw[2]["None"] \
+                        and any(d[0] == "call" and d[1] == cb for d, _ in origins(fn, {"copy": {"l": sw[0]["l"], "p": []}})):
+                    allowed.add((sb, sw[2]["None"]))
+            # reachability from the call without using an allowed edge
+            seen, st_ = set(), [cb]
+            while st_:
+                x = st_.pop()
+                if x in seen:
+                    continue
+                seen.add(x)
+                for y in fn.succs()[x]:
+                    if (x, y) not in allowed:
+                        st_.append(y)
+            ok = not any(ab in seen and ab != cb for ab in assign_blocks) and not (t["dest"]["l"] == 0)
+            rep.ob(rule, "returned-token-not-a-comment::next@%d" % calls.index(cb), ok,
+                   "" if ok else "a token drawn from the underlying lexer (line %s) can be returned without having been tested with is_comment(): a second comment in a row reaches the parser" % t["line"],
+                   fn.loc(t["line"]), how="returned only on the false edge of is_comment() or at end of input")
+        else:
+            rep.ob(rule, "returned-token-not-a-comment::%s" % nm, False, "the returned token comes from %s: cannot show that it is not a comment" % (callee_def(t) or nm), fn.loc(t["line"]))
+    rep.floor(rule, n, 1, "sources of the returned token")
